@@ -42,7 +42,8 @@ CONFIGS = [(a, m) for a in (False, True) for m in (None, 0, 1, 3)]
 
 def gen(ctx):
     rng = ctx.rng
-    full = ctx.thorough
+    full = True          # quick walks what used to be the thorough corpus; thorough goes deeper (below)
+    deep = ctx.thorough
     k = 0
 
     def configs_for(is_batch: bool):
@@ -64,9 +65,9 @@ def gen(ctx):
         yield from emit(fam, text, False)
     for fam, text in docs.singles(rng, full):
         yield from emit(fam, text, False)
-    for fam, text, n in docs.batches(rng, max_exhaustive_len=3 if full else 2, sampled=4000 if full else 500):
+    for fam, text, n in docs.batches(rng, max_exhaustive_len=3, sampled=60000 if deep else 4000):
         yield from emit(fam, text, True)
-    for fam, text in docs.nonjson(rng, per_doc=10 ** 6 if full else 25, random_texts=20000 if full else 1500):
+    for fam, text in docs.nonjson(rng, per_doc=10 ** 6, random_texts=400000 if deep else 20000):
         yield from emit(fam, text)
     for fam, text in docs.numbers(full):
         yield from emit(fam, text)
